@@ -27,7 +27,7 @@ Core Lean only.
 namespace Peg.Case
 
 /-- Python's `input[pos : pos+n]` (clamped at the end of the input) -/
-def slice (input : Array Char) (pos n : Nat) : List Char := ((input.toList.drop pos).take n)
+def slice (input : Array Char) (pos n : Nat) : List Char := (input.extract pos (pos + n)).toList
 
 /-- `StrMatch._parse`: matched length, `none` = NoMatch -/
 def strMatchLen (lower : Char → Char) (lit : List Char) (ic : Bool) (input : Array Char) (pos : Nat) :
